@@ -54,6 +54,7 @@ func c18Do(w *World, cmd string, n int) {
 		w.Deploy(deployArgs("s2", []string{fmt.Sprintf("x%d:80", n)}, []string{"b.example.com"}, nil))
 	case "deploy-conflict":
 		w.Deploy(deployArgs("s3", []string{fmt.Sprintf("y%d:80", n)}, []string{host}, nil))
+	case "none":
 	}
 }
 
@@ -106,10 +107,16 @@ func c18Body(c c18cfg, controlled bool, leak *map[string]int) func(w *World) {
 			time.Sleep(t0 + 2*vI - w.Now())
 		}
 		spawn("cmd", func() { c18Do(w, c.a, 1) })
-		spawn("cmd", func() { c18Do(w, c.b, 2) })
+		if c.b != "none" {
+			spawn("cmd", func() { c18Do(w, c.b, 2) })
+		}
 		switch c.clients {
 		case "plain+cookie":
 			spawn("client", func() { w.Do(ReqSpec{ID: "c-plain", Host: host}) })
+			spawn("client", func() { w.Do(ReqSpec{ID: "c-cookie", Host: host, Cookie: "kamal-rollout=v"}) })
+		case "one-plain":
+			spawn("client", func() { w.Do(ReqSpec{ID: "c-plain", Host: host}) })
+		case "one-cookie":
 			spawn("client", func() { w.Do(ReqSpec{ID: "c-cookie", Host: host, Cookie: "kamal-rollout=v"}) })
 		case "subpath":
 			spawn("client", func() { w.Do(ReqSpec{ID: "c-sub1", Host: host, Path: "/sub/x"}) })
@@ -201,6 +208,17 @@ func c18Configs(tier string) []c18cfg {
 			}
 		}
 	}
+	// one command and one request: small enough for a deeper bound in the quick tier
+	for _, a := range c18Cmds {
+		for _, cl := range []string{"one-plain", "one-cookie"} {
+			for _, pre := range []string{"running", "paused"} {
+				if pre == "paused" && cl == "one-cookie" {
+					continue
+				}
+				cfgs = append(cfgs, c18cfg{a, "none", cl, pre})
+			}
+		}
+	}
 	return cfgs
 }
 
@@ -279,7 +297,7 @@ func checkC18(t *testing.T, job *Job, res *Result) {
 		res.Gen = &GenStats{Evaluations: 1}
 		return
 	}
-	res.Rule = "engine S: every unordered pair of {deploy, redeploy with other hosts/paths, rollout deploy/set/stop, pause, stop, resume, remove, list, deploy of another service, conflicting deploy} running concurrently on a service with active+rollout targets and a split, with client threads {plain+cookie, established upgrade + slow request, slow + POST, two percentage-decided cookie requests, requests to a sub-path service of the same host}, from running, from paused and with probe results that change the deployed targets' state arriving at the instant the commands start; every schedule within the bounds; monitored: panic in any thread (incl. unlock of an unlocked mutex), deadlock (no thread enabled, none can be woken), hang (command or request unfinished at the horizon); engine H: every command (succeeding and failing) in every state reached by histories up to the depth bound; the data-race clause is covered by a separate free-running -race pass reported under race_pass (not exhaustive)"
+	res.Rule = "engine S: every unordered pair of {deploy, redeploy with other hosts/paths, rollout deploy/set/stop, pause, stop, resume, remove, list, deploy of another service, conflicting deploy} running concurrently on a service with active+rollout targets and a split, with client threads {plain+cookie, established upgrade + slow request, slow + POST, two percentage-decided cookie requests, requests to a sub-path service of the same host}, plus every single command with a single plain or opted-in request, from running, from paused and with probe results that change the deployed targets' state arriving at the instant the commands start; every schedule within the bounds; monitored: panic in any thread (incl. unlock of an unlocked mutex), deadlock (no thread enabled, none can be woken), hang (command or request unfinished at the horizon); engine H: every command (succeeding and failing) in every state reached by histories up to the depth bound; the data-race clause is covered by a separate free-running -race pass reported under race_pass (not exhaustive)"
 	if job.Replay == nil || job.Replay.Engine == "S" {
 		var scs []*Scenario
 		for i, c := range c18Configs(tier) {
@@ -287,16 +305,22 @@ func checkC18(t *testing.T, job *Job, res *Result) {
 			if tier == "quick" && i%45 == 0 {
 				sc.Bounds = &Bounds{D: 2, S: 0}
 			}
+			if c.b == "none" {
+				sc.Bounds = &Bounds{D: 3, S: 0}
+				if tier == "quick" {
+					sc.Bounds = &Bounds{D: 2, S: 1, SAlone: true}
+				}
+			}
 			scs = append(scs, sc)
 		}
 		b := Bounds{D: 1, S: 1, Total: 1}
-		res.Bounds = "quick: every configuration with <=1 deviation (thread or stall), every 45th configuration with <=2 thread deviations"
+		res.Bounds = "quick: every configuration with <=1 deviation (thread or stall), every 45th configuration with <=2 thread deviations; single command + single request configurations with <=2 deviations"
 		if tier == "thorough" {
 			b = Bounds{D: 2, S: 1, Total: 2}
 		}
 		runS(t, job, res, "C18", scs, b, 20000)
 		if tier == "quick" {
-			res.Bounds = "every configuration with <=1 deviation (thread or stall); every 45th configuration with <=2 thread deviations"
+			res.Bounds = "every configuration with <=1 deviation (thread or stall); every 45th configuration with <=2 thread deviations; single command + single request configurations with <=2 deviations"
 		}
 	}
 	if job.Replay == nil || job.Replay.Engine == "H" {
